@@ -210,6 +210,7 @@ func checkC05(r *core.Run) {
 	gb("weight", "weight above 4,000,000 is rejected", an.MatchCmpConst(4000000, token.GTR, "~.BlockWeight"))
 	c05Weight(r, p)
 	c05MerkleMutation(r, p)
+	c05HeightPush(r, p)
 	gb("first-is-coinbase", "a first transaction that is not a coinbase is rejected", func(iff *ssa.If) (bool, bool) {
 		ok, f := an.MatchBoolCall(false, "(*lib/btc.Tx).IsCoinBase")(iff)
 		if !ok {
@@ -870,4 +871,74 @@ func c05MerkleMutation(r *core.Run, p *core.Program) {
 		}
 	}
 	r.Check(ok, rule, "merkle/mutation-test", p.Pos(fn.Pos()), "the duplicate test compares the two nodes hashed together, at every level", why)
+}
+
+// c05HeightPush: the BIP34 test compares the start of the coinbase script with the height encoded as a
+// minimal script number push. The encoder (script.UintToScript) writes the value little-endian into bytes
+// 1..4 of a buffer, shortens it while the top byte is zero AND the byte below has no sign bit (>= 0x80 keeps
+// the zero byte: otherwise the number would read as negative), and prefixes the length; 0 and 1..16 are the
+// one-byte opcodes. A different sign-bit boundary makes the expected push differ from consensus for heights
+// whose top byte is exactly 0x80.
+func c05HeightPush(r *core.Run, p *core.Program) {
+	const rule = "R-C05-body"
+	fn := p.Func("lib/script.UintToScript")
+	if fn == nil {
+		r.Fail(rule, "bip34/height-encoding", "-", "UintToScript not found")
+		return
+	}
+	var conds []string
+	for _, b := range fn.Blocks {
+		if iff, ok := b.Instrs[len(b.Instrs)-1].(*ssa.If); ok {
+			conds = append(conds, an.Expr(iff.Cond))
+		}
+	}
+	has := func(pred func(string) bool) bool {
+		for _, c := range conds {
+			if pred(c) {
+				return true
+			}
+		}
+		return false
+	}
+	var probs []string
+	// the buffer and the walking length
+	buf, ln := "", ""
+	for _, c := range conds {
+		if strings.HasSuffix(c, "] != 0)") && strings.Contains(c, "[phi:") {
+			buf = c[1:strings.Index(c, "[")]
+			ln = c[strings.Index(c, "[")+1 : strings.LastIndex(c, "]")]
+		}
+	}
+	if buf == "" {
+		probs = append(probs, "no test of the top byte being non-zero")
+	} else {
+		sign := "(" + buf + "[(" + ln + " - 1)] >= 128)"
+		sign2 := "(" + buf + "[(" + ln + " - 1)] > 127)"
+		if !has(func(c string) bool { return c == sign || c == sign2 }) {
+			probs = append(probs, "the byte below a zero top byte is not tested for its sign bit with >= 0x80")
+		}
+		if !has(func(c string) bool { return c == "("+ln+" > 1)" }) {
+			probs = append(probs, "the shortening loop does not stop at one byte")
+		}
+		okLen, okPut := false, false
+		an.Instrs(fn, func(i ssa.Instruction) {
+			if st, ok := i.(*ssa.Store); ok && an.Expr(st.Addr) == "&"+buf+"[0]" && an.Expr(st.Val) == "byte("+ln+")" {
+				okLen = true
+			}
+			if c, ok := i.(*ssa.Call); ok && strings.HasSuffix(an.CallName(c), "littleEndian).PutUint32") && an.Expr(c.Call.Args[1]) == buf+"[1:5]" && an.Expr(c.Call.Args[2]) == "param#0" {
+				okPut = true
+			}
+		})
+		if !okLen {
+			probs = append(probs, "the push length is not the shortened length")
+		}
+		if !okPut {
+			probs = append(probs, "the value is not written little-endian into bytes 1..4")
+		}
+	}
+	if !has(func(c string) bool { return c == "(param#0 <= 16)" }) || !has(func(c string) bool { return c == "(param#0 >= 1)" }) || !has(func(c string) bool { return c == "(param#0 == 0)" }) {
+		probs = append(probs, "the small numbers 0 and 1..16 are not encoded as single opcodes")
+	}
+	sort.Strings(probs)
+	r.Check(len(probs) == 0, rule, "bip34/height-encoding", p.Pos(fn.Pos()), "minimal script-number push: little-endian, zero top bytes dropped unless the byte below has its sign bit set", strings.Join(probs, "; "))
 }
